@@ -79,6 +79,7 @@ type Step struct {
 	Op string `json:"op"` // start | step | finish | check | tick | authz | browse | keyset | secret
 
 	C        string   `json:"c"`        // check id (start/step/finish/check)
+	How      string   `json:"how"`      // tamper: dropCreated | epochCreated | garbageCreated | dropTokens
 	R        int      `json:"r"`        // replica (service instance) that receives the request, default 0
 	B        string   `json:"b"`        // browser id
 	F        string   `json:"f"`        // filter (chain) addressed
